@@ -5,6 +5,7 @@
 (* Operand TEXT CLASSES (the harness spells them with register r1, the     *)
 (* enumeration key kx, the number 5, the label lab):                       *)
 (*   r  r2  [r]  [r+n]  [n]  [[n]]  r+n  key  num  lab  {n}                *)
+(*   r++  @r  (decorated register)                                         *)
 (*   hexa ($a, a hexadecimal number) chra ('a', a character) - a register  *)
 (*   named a is declared: these are numbers, not register references       *)
 (* An ALTERNATIVE is [id, ty, off, curly]: its identifier (which becomes   *)
@@ -38,13 +39,16 @@ A(id, ty, off, curly) == [id |-> id, ty |-> ty, off |-> off, curly |-> curly]
 
 Rank(ty) ==
     CASE ty = "indirect_register" -> 2 [] ty = "indirect_indexed_register" -> 3 [] ty = "indirect_numeric" -> 4
-      [] ty = "deferred_numeric" -> 5 [] ty = "indexed_register" -> 6 [] ty = "enumeration" -> 7 [] ty = "register" -> 8
+      [] ty = "deferred_numeric" -> 5 [] ty = "indexed_register" -> 6 [] ty = "enumeration" -> 7
+      [] ty \in {"register", "register_pp", "register_at"} -> 8        \* a decorated register is a register operand
       [] ty = "numeric" -> 9 [] ty = "address" -> 10 [] ty = "relative_address" -> 11 [] ty = "numeric_bytecode" -> 12
       [] OTHER -> 99
 
 \* does alternative a accept operand text class t?  (register operands are for r1; r2 is another declared register)
 Acc(a, t) ==
     CASE a.ty = "register" -> t = "r"
+      [] a.ty = "register_pp" -> t = "r++"          \* register with the postfix decorator ++
+      [] a.ty = "register_at" -> t = "@r"           \* register with the prefix decorator @
       [] a.ty = "indirect_register" -> t = "[r]" \/ (a.off /\ t = "[r+n]")
       [] a.ty = "indirect_indexed_register" -> t = "[r+n]"
       [] a.ty = "indirect_numeric" -> t = "[n]"
